@@ -468,7 +468,7 @@ func (e *Engine) bindLoopSpecs(f *ssa.Function, spec *FuncSpec) []string {
 				}
 			case strings.HasPrefix(sel, `"`):
 				t, _ := strconv.Unquote(sel)
-				if t != "" && strings.HasPrefix(l.Text, strings.Join(strings.Fields(t), " ")) {
+				if t != "" && l.Text == strings.Join(strings.Fields(t), " ") {
 					seenText++
 					if seenText == occ {
 						hit = l
